@@ -5,6 +5,7 @@
    mitems <op> <k:hex>...
    bstep <S2..V4> <8 oracle tokens> <status:bodyhex>...   the BLE exchanges of the reply under test
    bmgmt <bleadd|blerem> <status:bodyhex>
+   bretry <bleadd|blerem> <D | status:bodyhex>...     one call: link drops (D) and the answered transaction
    code <hex>            -> error_handler class and documented class
    booleans are 0/1, optional plaintexts are N (None) or hex ("-" = empty) *)
 open Drv
@@ -45,6 +46,9 @@ let handle = function
       outcome (Steps.step_items (step_of s) (oracles srp m6p m6s der rp v2p v2s pid) (Stdlib.List.map item_of_tok items))
   | "bstep" :: s :: srp :: m6p :: m6s :: der :: rp :: v2p :: v2s :: pid :: xs ->
       outcome (StepsBle.step_ble (step_of s) (oracles srp m6p m6s der rp v2p v2s pid) (Stdlib.List.map item_of_tok xs))
+  | "bretry" :: op :: evs ->
+      let ev = function "D" -> None | t -> Some (item_of_tok t) in
+      mres (StepsBle.mgmt_ble_retry (StepsBle.ble_attempts (op_of op)) (op_of op) (Stdlib.List.map ev evs))
   | ["bmgmt"; op; x] -> mres (StepsBle.mgmt_ble (op_of op) (item_of_tok x))
   | ["mgmt"; op; h] -> mres (Steps.mgmt_wire (op_of op) (bytes_of_hex h))
   | "mitems" :: op :: items -> mres (Steps.mgmt_items (op_of op) (Stdlib.List.map item_of_tok items))
